@@ -245,13 +245,19 @@ def collect(F, fn_path, tag="", inline_pred=None, facts_hook=None, loop_k=1, ren
     iv = Intervals(F, expand)
     sites = {}      # (site_fn, line, kind, desc) -> Ob aggregated over paths (open wins over discharged)
 
-    def note(kind, desc, site, status, why, p, detail=None):
+    def note(kind, desc, site, status, why, p, detail=None, conds=None):
+        """conds: ';'-separated enum conditions of this path at the site; the site is described by the conditions common
+        to every path that reaches it (what is necessary to get there), not by whichever path happened to come first."""
         k = (site[0], site[1], kind, desc)
         o = sites.get(k)
+        cs = set(conds.split(";")) if conds else set()
         if o is None:
             o = sites[k] = Ob(kind, site[0], desc, site, status, why, p)
             o.detail = detail
+            o.conds = cs if conds is not None else None
         else:
+            if conds is not None and o.conds is not None:
+                o.conds &= cs
             rank = {"discharged": 0, "open": 1, "fails": 2}
             if rank[status] > rank[o.status]:
                 o.status, o.why, o.path = status, why, p
@@ -359,9 +365,31 @@ def collect(F, fn_path, tag="", inline_pred=None, facts_hook=None, loop_k=1, ren
                     q = linear.lin_add(linear.lin_add(lin.of_value(e[3][1]), lin.of_value(e[3][2])), lin.len_of(e[3][0]), -1)
                     ok = linear.entails(get_facts(), q)
                     note("precond", "ArcPayload::new", e[5], "discharged" if ok else "open", "start + length <= len(data) " + ("proved (D2)" if ok else "not proved"), p)
+                elif callee in GENERIC_ARITH and callee not in F.fns:
+                    # arithmetic on a generic integer (num-traits): a trait call in MIR, no overflow assert - panics in debug
+                    # builds and wraps in release builds when it overflows
+                    snap_c = (e[6] if len(e) > 6 and e[6] is not None else {})
+                    conds = enum_conditions(F, snap_c or p.cons, expand, any_root=True)
+                    # D5: x + 1 cannot overflow where x < y was established for some y of the same type; x - 1 where y < x
+                    okg = False
+                    opn = callee.split("::")[-1]
+                    if len(e[3]) >= 2 and e[3][1][0] == "sym" and expand(e[3][1])[1][0] == "call" and expand(e[3][1])[1][1].endswith("::one"):
+                        x = repr(expand(e[3][0]))
+                        for k2, c2 in snap_c.items():
+                            k2 = expand(k2)
+                            if k2[0] == "cmp" and k2[1] == "Lt" and c2 == ("eq", 1):
+                                if (opn == "add" and repr(k2[2]) == x) or (opn == "sub" and repr(k2[3]) == x):
+                                    okg = True
+                    dsc = "generic:%s(%s)" % (opn, ",".join(producer(x) for x in e[3][:2]))
+                    if okg:
+                        note("arith", dsc, e[5] if len(e) > 5 else (fn_path, None), "discharged",
+                             "D5: guarded by a strict comparison with another value of the same type", p)
+                        continue
+                    note("arith", dsc, e[5] if len(e) > 5 else (fn_path, None), "open",
+                         "generic integer arithmetic may overflow", p, conds=conds)
                 elif callee in PANIC_FNS:
                     note("panic", callee.split("::")[-1], e[5], "fails", "explicit panic reached on a feasible path", p,
-                         detail=enum_conditions(F, (e[6] if len(e) > 6 and e[6] is not None else p.cons), expand))
+                         conds=enum_conditions(F, (e[6] if len(e) > 6 and e[6] is not None else p.cons), expand))
         if p.kind == "panic":
             pass  # already noted through the failing assert / unwrap effect
     # stable keys: ordinal among identical (fn, kind, desc) in source order
@@ -372,6 +400,8 @@ def collect(F, fn_path, tag="", inline_pred=None, facts_hook=None, loop_k=1, ren
         # discharged sites need no stable identity beyond (fn, kind, desc); open ones are identified by what produced the
         # operand, so that adding or removing an unrelated site in the same function does not renumber them
         d = getattr(o, "detail", None)
+        if getattr(o, "conds", None):
+            d = (d or "") + ";".join(sorted(o.conds)) if not d else d + "{" + ";".join(sorted(o.conds)) + "}"
         desc = o.desc + ("(%s)" % d if (d and o.status != "discharged") else "")
         base = (owner_fn(F, o.fn, fn_path) if o.status != "discharged" else o.fn, o.kind, desc, o.status == "discharged")
         n = counts.get(base, 0)
@@ -391,11 +421,31 @@ def collect(F, fn_path, tag="", inline_pred=None, facts_hook=None, loop_k=1, ren
     return obs, {"paths": len(ps)}
 
 
-def enum_conditions(F, cons, expand):
-    """`field=Variant` for every enum-valued state field / argument the constraints pin to one variant (sorted, position-free)."""
+GENERIC_ARITH = ("std::ops::Add::add", "std::ops::Sub::sub", "std::ops::Mul::mul")
+
+
+def enum_conditions(F, cons, expand, any_root=False):
+    """`field=Variant` for every enum-valued state field / argument the constraints pin to one variant (sorted, position-free).
+    any_root: also results of calls (named by the callee), for sites identified by the local decisions they sit under."""
     out = set()
     for k, c in cons.items():
         k = expand(k)
+        if any_root and k[0] == "discr" and c[0] == "eq" and isinstance(k[1], tuple) and k[1] and k[1][0] in ("call", "field") :
+            t = k[1]
+            while isinstance(t, tuple) and t and t[0] == "field":
+                t = t[1]
+            if isinstance(t, tuple) and t and t[0] == "call":
+                nm0 = t[1].split("::")[-1]
+                inner = t[2][0] if t[2] else None
+                while isinstance(inner, tuple) and inner and inner[0] == "sym" and inner[1][0] == "call":
+                    nm0 = inner[1][1].split("::")[-1] + "." + nm0
+                    inner = inner[1][2][0] if inner[1][2] else None
+                    if nm0.count(".") > 3:
+                        break
+                var0 = explore.BUILTIN_DISCR.get(k[2], {}).get(c[1])
+                if var0 is not None:
+                    out.add("%s=%s" % (nm0, var0))
+                continue
         if k[0] == "discr" and c[0] == "eq" and isinstance(k[1], tuple) and k[1] and k[1][0] in ("init", "arg", "field"):
             t = k[1]
             if t[0] == "field":
